@@ -207,6 +207,10 @@ VCall(i) ==
                   vinit, vrange, vnext + 1)
          ELSE IF f = 2 /\ ~(\/ StackBytesOK(vreg[3], mp.vs)
                             \/ (vreg[3].t = "mv" /\ ~vreg[3].nul)) THEN Reject("helper-value-not-initialised-memory")
+         \* the helper reads mp.vs bytes: inside a map value they must lie inside that value (found with F35)
+         ELSE IF f = 2 /\ vreg[3].t = "mv" /\ Known(vreg[3].o)
+                       /\ (vreg[3].o < 0 \/ vreg[3].o + mp.vs > VMaps[vreg[3].fd].vs)
+              THEN Reject("helper-value-outside-map-value")
          ELSE IF f = 2 /\ vreg[4].t # "s" THEN Reject("helper-flags-not-scalar")
          ELSE Goto(vpc + 1, Scrubbed(VS), vinit, vrange, vnext)
 VExit ==
